@@ -77,45 +77,49 @@ def _response_coefficient_worker(
 
     """
     old = model.get_parameter_values()[parameter]
-    if y0 is not None:
-        old_variables = model.get_raw_variables()
-        model.update_variables(y0)
+    old_variables = model.get_raw_variables()
+    try:
+        if y0 is not None:
+            model.update_variables(y0)
 
-    model.update_parameters({parameter: old * (1 + displacement)})
-    upper = _steady_state_worker(
-        model,
-        rel_norm=rel_norm,
-        integrator=integrator,
-        y0=None,
-    )
-
-    model.update_parameters({parameter: old * (1 - displacement)})
-    lower = _steady_state_worker(
-        model,
-        rel_norm=rel_norm,
-        integrator=integrator,
-        y0=None,
-    )
-
-    conc_resp = (upper.variables.iloc[-1] - lower.variables.iloc[-1]) / (
-        2 * displacement * old
-    )  # pyright: ignore[reportOperatorIssue]
-    flux_resp = (upper.fluxes.iloc[-1] - lower.fluxes.iloc[-1]) / (
-        2 * displacement * old
-    )  # pyright: ignore[reportOperatorIssue]
-    # Reset
-    model.update_parameters({parameter: old})
-    if normalized:
-        norm = _steady_state_worker(
+        model.update_parameters({parameter: old * (1 + displacement)})
+        upper = _steady_state_worker(
             model,
             rel_norm=rel_norm,
             integrator=integrator,
             y0=None,
         )
-        conc_resp *= old / norm.variables.iloc[-1]
-        flux_resp *= old / norm.fluxes.iloc[-1]
-    if y0 is not None:
-        model.update_variables(old_variables)
+
+        model.update_parameters({parameter: old * (1 - displacement)})
+        lower = _steady_state_worker(
+            model,
+            rel_norm=rel_norm,
+            integrator=integrator,
+            y0=None,
+        )
+
+        conc_resp = (upper.variables.iloc[-1] - lower.variables.iloc[-1]) / (
+            2 * displacement * old
+        )  # pyright: ignore[reportOperatorIssue]
+        flux_resp = (upper.fluxes.iloc[-1] - lower.fluxes.iloc[-1]) / (
+            2 * displacement * old
+        )  # pyright: ignore[reportOperatorIssue]
+        # Reset
+        model.update_parameters({parameter: old})
+        if normalized:
+            norm = _steady_state_worker(
+                model,
+                rel_norm=rel_norm,
+                integrator=integrator,
+                y0=None,
+            )
+            conc_resp *= old / norm.variables.iloc[-1]
+            flux_resp *= old / norm.fluxes.iloc[-1]
+    finally:
+        # Leave the model as it was found, also when a steady-state run raises
+        model.update_parameters({parameter: old})
+        if y0 is not None:
+            model.update_variables(old_variables)
     return conc_resp, flux_resp
 
 
